@@ -1433,6 +1433,16 @@ def report(ctx, audit, t0):
         "hypotheses_checked_at_run_time": dict(ctx.hyp_checked),
         "extraction_cross_check": dict(ctx.cross, what="the same toy-key cases evaluated by vm_compute inside Coq (kernel-checked equality) and by the extracted OCaml driver"),
     }
+    try:
+        surf = source_surface()
+        for d in surf["source_constants_differ_from_model"]:
+            print("NOTE: constant in /repo/src differs from the model's: %s (the correspondence run decides whether a property is affected)" % d)
+        if surf["pub_fns_not_called_by_harness"]:
+            print("NOTE: public functions in /repo/src that the harness never calls (not covered by any check): %s" % ", ".join(surf["pub_fns_not_called_by_harness"]))
+        surf.pop("exempt", None)
+        cov["source_surface"] = surf
+    except Exception as e:
+        cov["source_surface"] = {"error": repr(e)}
     assumptions = ["the correspondence check is differential testing: agreement is established on the inputs run",
                    "crypto cores (ECDSA equation, ed25519, SEC1 decoding) are oracles at run time and universally quantified in the theorems",
                    "unforgeability and collision resistance are not claimed"]
